@@ -758,6 +758,9 @@ func (fa *Facts) KnownNil(b *ssa.BasicBlock, v ssa.Value, wantNil bool) bool {
 	if !wantNil && isNonNilErrValue(rv, 0) {
 		return true
 	}
+	if wantNil && rv != nil && isErrorType(rv.Type()) && nilImpliedByAggregate(fa.At(b), rv) {
+		return true
+	}
 	for k := range fa.At(b) {
 		bo, ok := k.v.(*ssa.BinOp)
 		if !ok || (bo.Op != token.EQL && bo.Op != token.NEQ) {
